@@ -1,8 +1,9 @@
 """C12 - bindings are lexical and transparent; pipes and later selects keep their inputs"""
 from ..scen_ctx import contexts
-from ..scen_misc import pipe
+from ..scen_misc import pipe, variable_get
 
 
 def run(ctx):
     contexts(ctx)
     pipe(ctx)
+    variable_get(ctx)
